@@ -37,7 +37,7 @@ def episodes(full):
                         if not full and (point in ("flushed",) or (data == "fresh" and declared == "correct")):
                             continue
                         out.append({"t": "AB", "side": side, "keyed": keyed, "data": data, "declared": declared, "point": point})
-                for why in ("size", "integrity", "size-large"):
+                for why in ("size", "integrity", "size-large", "size-overflow"):
                     if not full and why == "size-large" and side == "s":
                         continue
                     out.append({"t": "REJ", "side": side, "keyed": keyed, "data": data, "why": why})
@@ -92,6 +92,8 @@ class C14Spec(seqx.Spec):
                 opts["size"] = n + 1
             elif action["why"] == "size-large":
                 opts["size"] = ref.MIB + 5
+            elif action["why"] == "size-overflow":
+                opts["size"] = n - 2      # more bytes than declared, delivered in two chunks
             else:
                 opts["integrity"] = ctx.sri("sha256", b"some other data")
         req = {"op": pre + "open", "cache": cache, "opts": opts}
@@ -125,7 +127,12 @@ class C14Spec(seqx.Spec):
             res["transitions"] += 1
             return r
         # REJ: deliver all the data, commit must be rejected
-        r = srv.call({"op": "w_write_all", "h": h, "data": {"gen": [n, tag]}})
+        if action["why"] == "size-overflow":
+            r = srv.call({"op": "w_write_all", "h": h, "data": {"gen": [n, tag, 0, n // 2]}})
+            if "ok" in r:
+                r = srv.call({"op": "w_write_all", "h": h, "data": {"gen": [n, tag, n // 2, n - n // 2]}})
+        else:
+            r = srv.call({"op": "w_write_all", "h": h, "data": {"gen": [n, tag]}})
         if "ok" not in r:
             bad("write-" + classify(r), "write failed: %r" % r, r)
             if "hang" in r or "died" in r:
